@@ -31,7 +31,7 @@ var purePrefixes = []string{
 	"crypto/sha256.", "(hash.", "(*crypto/sha256.", "golang.org/x/crypto/blake2b.", "encoding/json.Marshal", "(net/http.Header)", "net/http.Error",
 	"(*sync.WaitGroup)", "(*sync/atomic.", "sync/atomic.", "(google.golang.org/grpc/", "google.golang.org/grpc/status.", "google.golang.org/grpc/codes.", "google.golang.org/grpc/peer.", "google.golang.org/grpc/metadata.",
 	"(*google.golang.org/protobuf/types/known/timestamppb.Timestamp).AsTime", "google.golang.org/protobuf/types/known/timestamppb.",
-	"os.Getenv", "(*math/big.",
+	"os.Getenv", "(*math/big.", "(" + modPath + "/internal/net.Peer).", "(*" + modPath + "/common/key.Identity).Address", "(*" + modPath + "/common/key.Node).Address",
 }
 
 func (e *Engine) isPure(key string) bool {
@@ -350,6 +350,14 @@ func (vf *VerifyFunc) doCall(st *State, fr *Frame, in ssa.Instruction, cc *ssa.C
 		}
 		st.frames = append(st.frames, nf)
 		return nil, true
+	}
+	// context.CancelFunc values only cancel a context
+	if !cc.IsInvoke() {
+		if n, ok := cc.Value.Type().(*types.Named); ok && n.Obj().Pkg() != nil && n.Obj().Pkg().Path() == "context" && n.Obj().Name() == "CancelFunc" {
+			r := mkres()
+			after(r, nil)
+			return r, false
+		}
 	}
 	// unknown effects
 	if key == "" {
